@@ -461,9 +461,9 @@ class Prop:
             "value-equal objects, tuples, ints, dataclasses; identity-hashed objects; '7' next to 7) x the 8 serialisation mappers (a tuple-writing one / none / "
             "set data in place / wrap / new dict keeping or dropping data_id / extra entry popped by the decoder / data_id moved to "
             "another key and restored into item['data_id'] by the deserialize mapper) with the inverse deserialisation mapper (quick: all 8 up to 3 nodes, 3 of 8 at 4 "
-            "nodes, 1 of 8 at 5 nodes; thorough: all up to 5 nodes, 2 of 8 at 6 nodes); trees under a calc_data_id hook; typed trees; emptied trees (clear, remove of the last top "
+            "nodes, 1 of 8 at 5 nodes; thorough: all up to 4 nodes, 3 of 8 at 5 nodes, 2 of 8 at 6 nodes); trees under a calc_data_id hook; typed trees; emptied trees (clear, remove of the last top "
             "node); trees reached through mutation histories (remove, remove(keep_children), remove_children, move_to, filter, add, "
-            "clear + re-add: every single operation on every node of every forest <= 3 nodes, pairs on 4 nodes, random histories); seeded random trees (5..18 nodes quick, 5..30 thorough); 47 hand-written + 150 (thorough 800) random dict lists (missing/unhashable data, bad data_id / node_id / children entries, non-dict items); Node.from_dict "
+            "clear + re-add: every single operation on every node of every forest <= 3 nodes, pairs on 4 nodes, random histories); seeded random trees (5..18 nodes quick, 5..30 thorough); 47 hand-written + 150 (thorough 500) random dict lists (missing/unhashable data, bad data_id / node_id / children entries, non-dict items); Node.from_dict "
             "into every node of every forest <= 3 (thorough 4) nodes x 3 calc_data_id hooks x 6 item lists.  Every dump goes through "
             "json.dumps/json.loads before from_dict.  A case is one tree (or one dict list); distinct = distinct desc; non-trivial = >= 3 nodes")
     exhaustive_note = ("all shapes <= 3 nodes x all labelings (2 strings x 5 data_id choices; quick: 2 choices at 3 nodes); "
@@ -545,9 +545,9 @@ class Prop:
             for si, shape in enumerate(H.forests(n)):
                 for pi, (univ, labeler) in enumerate(pats):
                     nodes = B.shape_to_nodes(shape, labeler)
-                    if n <= (3 if tier == "quick" else 5):
+                    if n <= (3 if tier == "quick" else 4):
                         kinds = SM_KINDS
-                    elif tier == "quick" and n == 4:
+                    elif n == (4 if tier == "quick" else 5):
                         kinds = [SM_KINDS[(pi + si + j) % 8] for j in (0, 2, 5)]
                     elif tier == "quick":
                         kinds = [SM_KINDS[(pi + si) % 8]]
@@ -614,7 +614,7 @@ class Prop:
                     d = hist_desc(shape, 4, [[op, k], ["remove_keep", k]], sm="set" if k % 2 else "none")
                     if ok(d):
                         yield d
-        for _ in range(40 if tier == "quick" else 600):
+        for _ in range(40 if tier == "quick" else 300):
             n = rng.randint(2, 7)
             shape = H.random_shape(rng, n, deep=rng.choice([0.3, 0.7]))
             hist = []
@@ -654,7 +654,7 @@ class Prop:
         # (5) hand-written / malformed inputs of from_dict
         yield from LOADS
         # (5b) random dict lists, mostly valid + malformed entries of every kind (from_dict on ANY input)
-        for _ in range(150 if tier == "quick" else 800):
+        for _ in range(150 if tier == "quick" else 500):
             yield dict(load=random_items(rng, rng.randint(1, 4), 0))
         # (6) Node.from_dict into a node of an existing tree (with and without calc_data_id hook)
         items_pool = [
